@@ -384,6 +384,46 @@ def rule_let_chain(text, ctx, where):
     return text, n
 
 
+def rule_let_chain_rev(text, ctx, where):
+    """`if let PAT = E && COND { B }` (no else) -> `if let PAT = E { if COND { B } }`"""
+    n = 0
+    while True:
+        m = mask(text)
+        found = None
+        for mt in re.finditer(r"\bif\s+let\s", m):
+            b = find_top_level_brace(m, mt.end())
+            if b < 0:
+                continue
+            cond = m[mt.start() + 2:b]
+            # first `&&` at bracket depth 0
+            depth, k = 0, -1
+            for i, ch in enumerate(cond):
+                if ch in "([{":
+                    depth += 1
+                elif ch in ")]}":
+                    depth -= 1
+                elif depth == 0 and cond.startswith("&&", i):
+                    k = i
+                    break
+            if k < 0:
+                continue
+            found = (mt, b, k)
+            break
+        if not found:
+            break
+        mt, b, k = found
+        e = match_delim(m, b)
+        if m[e + 1:e + 12].lstrip().startswith("else"):
+            raise AnchorLost(f"{where}: let-chain with else branch")
+        cond_text = text[mt.start() + 2:b]
+        left = cond_text[:k].strip()
+        right = cond_text[k + 2:].strip()
+        body = text[b:e + 1]
+        text = text[:mt.start()] + f"if {left} {{ if {right} {body} }}" + text[e + 1:]
+        n += 1
+    return text, n
+
+
 def find_top_level_brace(m, start):
     depth = 0
     j = start
@@ -782,7 +822,7 @@ def rule_box_as_ref(text, ctx, where):
     return re.subn(r"\b([a-z_][a-z_0-9]*)\.as_ref\(\)(?!\s*\.map\()", r"box_as_ref(&\1)", text)
 
 
-RULES = {"box_as_ref": rule_box_as_ref, "iter_find_map": rule_iter_find_map, "iter_rfind_map": rule_iter_rfind_map, "iter_all": rule_iter_all, "let_chain": rule_let_chain, "entry_or_insert_with": rule_entry_or_insert_with, "for_into_iter": rule_for_into_iter, "iter_map_collect": rule_iter_map_collect, "ok_or_else_q": rule_ok_or_else_q, "for_zip": rule_for_zip, "msg_to_string": rule_msg_to_string, "for_consume": rule_for_consume, "for_entries": rule_for_entries, "opt_map": rule_opt_map, "opt_or_else": rule_opt_or_else, "closure_inline": rule_closure_inline, "unreachable_partial": rule_unreachable_partial, "assert_partial": rule_assert_partial, "for_index": rule_for_index, "map_err_q": rule_map_err_q, "iter_any": rule_iter_any, "opt_map_or": rule_opt_map_or, "mutself": rule_mutself, "fmtmsg": rule_fmtmsg, "pubfields": rule_pubfields, "T": rule_T, "attrs": rule_attrs, "cell": rule_cell}
+RULES = {"box_as_ref": rule_box_as_ref, "let_chain_rev": rule_let_chain_rev, "iter_find_map": rule_iter_find_map, "iter_rfind_map": rule_iter_rfind_map, "iter_all": rule_iter_all, "let_chain": rule_let_chain, "entry_or_insert_with": rule_entry_or_insert_with, "for_into_iter": rule_for_into_iter, "iter_map_collect": rule_iter_map_collect, "ok_or_else_q": rule_ok_or_else_q, "for_zip": rule_for_zip, "msg_to_string": rule_msg_to_string, "for_consume": rule_for_consume, "for_entries": rule_for_entries, "opt_map": rule_opt_map, "opt_or_else": rule_opt_or_else, "closure_inline": rule_closure_inline, "unreachable_partial": rule_unreachable_partial, "assert_partial": rule_assert_partial, "for_index": rule_for_index, "map_err_q": rule_map_err_q, "iter_any": rule_iter_any, "opt_map_or": rule_opt_map_or, "mutself": rule_mutself, "fmtmsg": rule_fmtmsg, "pubfields": rule_pubfields, "T": rule_T, "attrs": rule_attrs, "cell": rule_cell}
 
 
 def apply_rules(text, rules, ctx, counts, where):
